@@ -640,8 +640,12 @@ func runCSV(r *Result, cs Case, rng *rand.Rand, dir string) {
 	if cs.Kind == "tsv" {
 		sep = '\t'
 	}
-	header := cs.Var != "noheader"
+	header := cs.Var != "noheader" && cs.Var != "firstfield-noheader"
 	f := fileh.GenCSVFile(rng, cs.N, fileh.CSVOpts{Sep: sep, Header: header})
+	if strings.HasPrefix(cs.Var, "firstfield") {
+		f = genFirstFieldCSV(rng, sep, header, cs.N)
+		r.count("inproc/"+cs.Kind+"/first_field_files", 1)
+	}
 	path, err := writeFile(dir, cs.ID+"."+cs.Kind, f.Content)
 	if err != nil {
 		r.Inconclusive = append(r.Inconclusive, "scratch-write")
